@@ -334,3 +334,38 @@ def assignments(atoms):
     atoms = list(atoms)
     for vals in itertools.product([False, True], repeat=len(atoms)):
         yield dict(zip(atoms, vals))
+
+
+def eval_signed(expr, assignment, atom):
+    """Like eval_bool, for atom functions that return (key, polarity): `x is not None` is the atom `x is None` negated."""
+    def key(e):
+        a = atom(e)
+        return None if a is None else a
+    if isinstance(expr, ast.UnaryOp) and isinstance(expr.op, ast.Not):
+        v = eval_signed(expr.operand, assignment, atom)
+        return None if v is None else (not v)
+    if isinstance(expr, ast.BoolOp):
+        vals = [eval_signed(v, assignment, atom) for v in expr.values]
+        if isinstance(expr.op, ast.And):
+            return False if any(v is False for v in vals) else (None if any(v is None for v in vals) else True)
+        return True if any(v is True for v in vals) else (None if any(v is None for v in vals) else False)
+    if isinstance(expr, ast.Constant) and isinstance(expr.value, bool):
+        return expr.value
+    a = key(expr)
+    if a is None:
+        return None
+    k, pol = a
+    v = assignment.get(k)
+    return None if v is None else (v if pol else not v)
+
+
+def path_condition(guards, assignment, atom):
+    """truth of a CFG path condition [(test, polarity)...] under an assignment; None if some atom is unknown"""
+    out = True
+    for t, pol in guards:
+        v = eval_signed(t, assignment, atom)
+        if v is None:
+            return None
+        if v != pol:
+            out = False
+    return out
